@@ -18,6 +18,7 @@ from ..core import (
     ContainerValueMixin,
     Field,
     Schema,
+    ValidationError,
     isconfigtype,
 )
 
@@ -62,7 +63,9 @@ class ListProxy(list, ContainerValueMixin):
             super().extend(self._validate(item) for item in iterable)
 
     def insert(self, index: int, item: Any) -> None:
-        super().insert(index, self._validate(item))
+        size = len(self)
+        position = min(max(index + size if index < 0 else index, 0), size)
+        super().insert(index, self._validate(item, position))
 
     def copy(self) -> "ListProxy":
         return ListProxy(self.cfg, self.list_field, self)
@@ -83,18 +86,38 @@ class ListProxy(list, ContainerValueMixin):
     ) -> None:
         if isinstance(index, slice):
             # any iterable (iterator, generator, another proxy), like list.__setitem__
-            super().__setitem__(index, [self._validate(i) for i in item])
+            start, _, step = index.indices(len(self))
+            super().__setitem__(
+                index,
+                [self._validate(i, start + pos * step) for pos, i in enumerate(item)],
+            )
         else:
             # an int, an object with __index__, or something list.__setitem__ rejects itself
-            super().__setitem__(index, self._validate(item))
+            position = index if isinstance(index, int) else None
+            if position is not None and position < 0:
+                position += len(self)
+            super().__setitem__(index, self._validate(item, position))
 
-    def _validate(self, value: Any) -> Any:
+    def _validate(self, value: Any, position: Optional[int] = None) -> Any:
         """
         Validate a value.
 
         :param value: value to validate
+        :param position: the index the value is going to be stored at (default: appended), which is
+            where errors raised while the value is validated are reported
         :returns: the validated value
         """
+        self._pending_position = position
+        try:
+            return self._validate_item(value)
+        except ValidationError as exc:
+            # the rejected item is never stored: its path is resolved while its position is known
+            exc._ref_path = exc.ref_path
+            raise
+        finally:
+            self._pending_position = None
+
+    def _validate_item(self, value: Any) -> Any:
         if isinstance(self.item_field, Schema) or isconfigtype(self.item_field):
             if isinstance(value, dict):
                 cfg = self.item_field()  # type: ignore
@@ -129,9 +152,11 @@ class ListProxy(list, ContainerValueMixin):
             if current is item:
                 return str(pos)
         if isinstance(item, Config):
-            # a configuration that is not (yet) in the list is being loaded to be appended; an
-            # equal-valued earlier item must not be mistaken for it
-            return str(len(self))
+            # a configuration that is not (yet) in the list is being loaded to be stored at the
+            # pending position (default: appended); an equal-valued earlier item must not be
+            # mistaken for it
+            pending = getattr(self, "_pending_position", None)
+            return str(len(self) if pending is None else pending)
         try:
             return str(self.index(item))
         except:  # noqa: E722
